@@ -201,7 +201,10 @@ func (self *linkedPairs) BuildIndex() {
 	}
 	for i := 0; i < self.size; i++ {
 		p := self.At(i)
-		self.index[p.hash] = i
+		/* the first occurrence of a duplicated key wins, as for a linear search */
+		if _, ok := self.index[p.hash]; !ok {
+			self.index[p.hash] = i
+		}
 	}
 }
 
@@ -249,7 +252,16 @@ func (self *linkedPairs) Pop() {
 func (self *linkedPairs) Unset(i int) {
 	if self.index != nil {
 		p := self.At(i)
-		delete(self.index, p.hash)
+		if j, ok := self.index[p.hash]; ok && j == i {
+			delete(self.index, p.hash)
+			/* a later pair with the same hash (a duplicated key) takes over */
+			for k := i + 1; k < self.size; k++ {
+				if q := self.At(k); q.hash == p.hash && q.Value.Exists() {
+					self.index[p.hash] = k
+					break
+				}
+			}
+		}
 	}
 	self.set(i, Pair{})
 }
@@ -257,7 +269,10 @@ func (self *linkedPairs) Unset(i int) {
 func (self *linkedPairs) Set(i int, v Pair) {
 	if self.index != nil {
 		h := v.hash
-		self.index[h] = i
+		/* keep the index on the first occurrence of a duplicated key */
+		if j, ok := self.index[h]; !ok || i <= j || !self.At(j).Value.Exists() {
+			self.index[h] = i
+		}
 	}
 	self.set(i, v)
 }
